@@ -12,6 +12,7 @@ import (
 	"fmt"
 	"math/big"
 	"net"
+	"net/netip"
 	"reflect"
 	"strconv"
 	"strings"
@@ -31,7 +32,7 @@ var hsFieldClasses = [7][]string{
 	{"<ok>", "", "0", "2", "x", "-1", "1 ", " 1", "+1", "01", "1.0", "99999999999999999999", "0x1"},
 	{"<ok>", "<unoffered>", "", "x", "-1", " <ok>", "<ok> ", "0<ok>", "99999999999999999999", "+<ok>"},
 	{"<ok>", "tcp", "", "udp", "unixgram", "UNIX", "tcp4", "unix ", "x"},
-	{"<ok>", "", "/nonexistent/sock", "127.0.0.1:1", "localhost:99999", "nohost.invalid:80", "127.0.0.1", ":0", "[::1]:80", "a\x00b", "999.1.1.1:5", "127.0.0.1:http"},
+	{"<ok>", "", "/nonexistent/sock", "127.0.0.1:1", "localhost:99999", "nohost.invalid:80", "127.0.0.1", ":0", "[::1]:80", "a\x00b", "999.1.1.1:5", "127.0.0.1:http", "[::1]:4321", "[fe80::1%lo]:80", "127.0.0.1:", "[::ffff:127.0.0.1]:77", "127.0.0.1:65536", "127.0.0.1:-1"},
 	{"<ok>", "netrpc", "grpc", "", "GRPC", "http", "grpc ", "netrpc\t"},
 	{"<ok>", "", "shortjunk", strings.Repeat("!", 60), "<b64junk>", "{CERT}", "{CERT}AAAA", " {CERT}"},
 	{"<ok>", "<absent>", "true", "false", "", "1", "0", "yes", "TRUE", "t", "f", "tru"},
@@ -496,6 +497,11 @@ func firstLine(s string) string {
 
 func normAddr(network, address string) string {
 	if network == "tcp" {
+		// (as net.TCPAddr prints a literal address: an IPv4-mapped IPv6 address
+		// in its IPv4 form, a zone kept)
+		if ap, err := netip.ParseAddrPort(address); err == nil {
+			return netip.AddrPortFrom(ap.Addr().Unmap(), ap.Port()).String()
+		}
 		host, port, err := net.SplitHostPort(address)
 		if err == nil {
 			if host == "localhost" {
@@ -550,6 +556,12 @@ func hsSpecs(prop string, seed uint64, confs []hsConf, launches []string) []*k.S
 					line := buildLine(c, classes)
 					out = append(out, sp(prop, fmt.Sprintf("field/c%d/%s/f%d=%d", ci, launch, f, cl), seed, cp(c.params(), "launch", launch, "out", b64(line+"\n"))))
 				}
+			}
+			// the tcp network with every address form (a pair of deviations)
+			for a := range hsFieldClasses[3] {
+				var classes [7]int
+				classes[2], classes[3] = 1, a
+				out = append(out, sp(prop, fmt.Sprintf("tcpaddr/c%d/%s/a%d", ci, launch, a), seed, cp(c.params(), "launch", launch, "out", b64(buildLine(c, classes)+"\n"))))
 			}
 			valid := buildLine(c, [7]int{})
 			for si, sh := range hsShapes {
